@@ -6,7 +6,6 @@ import (
 	"github.com/transparency-dev/witness/verifmc/wh"
 )
 
-func pathExhaustive(run *ev.Run, prop string, mon func(*wh.Step)) {}
 func c03StorageFailures(run *ev.Run)                               { runFaults(run, "C03", "quick", true) }
 
 func c10EndToEnd(run *ev.Run, u *uni.U, gen *wh.CPGen, la, lb wh.LogCfg) {}
